@@ -35,6 +35,9 @@ type solverSpec struct {
 var solvers = []solverSpec{
 	{"z3-new", func(f string, t int) []string { return []string{"z3-new", fmt.Sprintf("-T:%d", t), f} }},
 	{"z3", func(f string, t int) []string { return []string{"z3", fmt.Sprintf("-T:%d", t), f} }},
+	{"z3-new-ematch", func(f string, t int) []string {
+		return []string{"z3-new", "smt.mbqi=false", "smt.auto_config=false", fmt.Sprintf("-T:%d", t), f}
+	}},
 	{"cvc5", func(f string, t int) []string {
 		return []string{"cvc5", fmt.Sprintf("--tlimit=%d", t*1000), f}
 	}},
